@@ -10,6 +10,7 @@ import (
 	"fmt"
 	"io"
 	"math"
+	"os"
 	"sort"
 	"testing"
 	"time"
@@ -292,6 +293,27 @@ func checkInner(c Case) (string, string) {
 				_ = fh.Close()
 			}
 			break
+		}
+	}
+	// ... and through the handle of the open that CREATED a regular file (a record that never went through a look-up)
+	if created, cerr := hackpadfs.OpenFile(b.fs, childPath("zz-created"), os.O_RDWR|os.O_CREATE|os.O_EXCL, 0o644); cerr == nil {
+		var bad string
+		for attempt, n := range []int{-1, 1, -1} {
+			_, rerr := hackpadfs.ReadDirFile(created, n)
+			if errors.Is(rerr, hackpadfs.ErrNotImplemented) {
+				break
+			}
+			if rerr == nil || rerr == io.EOF || !errors.Is(rerr, hackpadfs.ErrNotDir) {
+				bad = fmt.Sprintf("attempt %d: ReadDir(%d) on the handle that created the regular file %q = %v, want an error matching ErrNotDir", attempt, n, childPath("zz-created"), rerr)
+				break
+			}
+		}
+		_ = created.Close()
+		if rmErr := hackpadfs.Remove(b.fs, childPath("zz-created")); rmErr != nil {
+			return base + " cleanup", rmErr.Error()
+		}
+		if bad != "" {
+			return base + " readdir:creating-handle-not-notdir", bad
 		}
 	}
 	// ---- paged reads on a handle
